@@ -109,7 +109,10 @@ def copy_val(v):
     if isinstance(v, Tup):
         return Tup([copy_val(x) for x in v.items])
     if isinstance(v, Adt) and not getattr(v, "heap", False):
-        return Adt(v.name, [copy_val(x) for x in v.fields])
+        a = Adt(v.name, [copy_val(x) for x in v.fields])
+        if hasattr(v, "origin"):
+            a.origin = v.origin
+        return a
     if isinstance(v, Enum):
         return Enum(v.variant, v.idx, [copy_val(x) for x in v.fields])
     return v
@@ -251,7 +254,7 @@ class Interp:
         self.steps = 0
         self.panics = []  # (msg, where, model) - possible panics found on this path
         self.called = set()
-        self.closure_index = None
+        self.closure_cache = {}
 
     # ---- function lookup
     def get_fn(self, name):
@@ -262,21 +265,31 @@ class Interp:
             self.parsed[name] = parse_fn(header, body)
         return self.parsed[name]
 
-    def closure_fn(self, closure_ty):
-        if self.closure_index is None:
-            self.closure_index = {}
-            for name, lst in self.raw.items():
-                if "{closure#" in name:
-                    m = re.search(r"_1: &(?:mut )?(\{closure@[^}]*\})", lst[0][0])
-                    if m:
-                        self.closure_index[m.group(1)] = name
-                    else:
-                        m = re.search(r"_1: (\{closure@[^}]*\})", lst[0][0])
-                        if m:
-                            self.closure_index[m.group(1)] = name
-        if closure_ty not in self.closure_index:
-            raise Unsupported(f"closure body not found for {closure_ty}")
-        return self.closure_index[closure_ty]
+    def closure_fn(self, clos):
+        """The MIR body of a closure value. Closure types are printed as `{closure@file:line:col}`, which is
+        ambiguous for macro-generated code, so the function that created the closure (recorded on the value)
+        disambiguates: its closures are named `<creator>::{closure#k}`."""
+        closure_ty = clos.name if not isinstance(clos, str) else clos
+        origin = getattr(clos, "origin", None)
+        key = (closure_ty, origin)
+        if key in self.closure_cache:
+            return self.closure_cache[key]
+        cands = []
+        for name, lst in self.raw.items():
+            if "{closure#" not in name:
+                continue
+            m = re.search(r"_1: &?(?:mut )?(\{closure@[^}]*\})", lst[0][0])
+            if m and m.group(1) == closure_ty:
+                cands.append(name)
+        if origin is not None:
+            pat = re.compile("^" + re.escape(origin) + r"::\{closure#\d+\}$")
+            narrowed = [n for n in cands if pat.match(n)]
+            if narrowed:
+                cands = narrowed
+        if len(cands) != 1:
+            raise Unsupported(f"closure body not uniquely found for {closure_ty} created in {origin}: {cands[:3]}")
+        self.closure_cache[key] = cands[0]
+        return cands[0]
 
     # ---- execution
     def call_fn(self, name, args):
@@ -411,7 +424,7 @@ class Interp:
 
     def call_closure(self, clos, args):
         """clos: Adt named '{closure@...}' (or a ZeroSized closure marker)"""
-        name = self.closure_fn(clos.name)
+        name = self.closure_fn(clos)
         fn = self.get_fn(name)
         first_ty = fn.params[0][1]
         cell = Cell(clos)
@@ -477,7 +490,10 @@ class Interp:
                 raise Unsupported(f"read of uninitialised place {op[1]}")
             return copy_val(v)
         if k == "const":
-            return self.const(op[1])
+            v = self.const(op[1])
+            if isinstance(v, Adt) and v.name.startswith("{closure@"):
+                v.origin = fr.fn.name
+            return v
         raise Unsupported(f"operand {op}")
 
     def const(self, s):
@@ -511,6 +527,17 @@ class Interp:
                 return self.make_variant(s, [])
             except Unsupported:
                 pass
+        pm = re.fullmatch(r"(.+)::(\w+)::promoted\[(\d+)\]", s)
+        if pm:
+            # a promoted constant of function <..>::name: evaluate its MIR item
+            suffix = f"::{pm.group(2)}::promoted[{pm.group(3)}]"
+            cands = [n for n in self.raw if n.endswith(suffix)]
+            ty = pm.group(1).split("::")[-1]
+            if len(cands) > 1:
+                cands = [n for n in cands if self.impl_type(n) == ty] or cands
+            if len(cands) == 1:
+                return self.call_fn(cands[0], [])
+            raise Unsupported(f"promoted constant {s}: {cands[:3]}")
         raise Unsupported(f"constant {s}")
 
     def make_variant(self, name, fields):
@@ -524,6 +551,10 @@ class Interp:
                 return Enum(var, vs.index(var), fields)
         if segs and segs[-1] in ("Some", "None"):
             return Enum(segs[-1], 1 if segs[-1] == "Some" else 0, fields)
+        if segs and segs[-1] in ("Ok", "Err"):
+            return Enum(segs[-1], 0 if segs[-1] == "Ok" else 1, fields)
+        if segs and segs[-1][:1].isupper() and fields:
+            return Adt(segs[-1], fields)  # a tuple struct such as OrderedFloat(x)
         raise Unsupported(f"enum/struct constructor {name}")
 
     def rvalue(self, fr, rv):
@@ -562,11 +593,21 @@ class Interp:
         if k == "tuple":
             return Tup([self.operand(fr, o) for o in rv[1]])
         if k == "struct":
-            return Adt(rv[1], [self.operand(fr, o) for _, o in rv[2]])
+            a = Adt(rv[1], [self.operand(fr, o) for _, o in rv[2]])
+            if rv[1].startswith("{closure@"):
+                a.origin = fr.fn.name
+            return a
         if k == "variant":
             name = rv[1]
             fields = [self.operand(fr, o) for o in rv[2]]
             return self.make_variant(name, fields)
+        if k == "array":
+            from models import VecObj
+            return VecObj([self.operand(fr, o) for o in rv[1]])
+        if k == "cast" and rv[3] == "PointerCoercion":
+            return self.operand(fr, rv[1])
+        if k == "cast" and rv[3] in ("IntToFloat", "FloatToFloat"):
+            return ("float-of", self.operand(fr, rv[1]))  # floats are opaque: carried, never inspected
         if k == "cast":
             a = self.operand(fr, rv[1])
             if rv[3] == "IntToInt" and isinstance(a, Int):
